@@ -1,5 +1,5 @@
 import Pm.SortF
-/-! Proofs about the fuel based sort mirrors of `Pm/SortF.lean`: sorting (`sortHLF`) never adds, drops or renames a
+/-! Proofs about the fuel based sort mirrors of `Pm/SortF.lean`: sorting (`sortHL`) never adds, drops or renames a
     node.  The argument does not depend on the order the merge sort produces: the coalesce and collapse lemmas are
     stated for an arbitrary list of ids satisfying `Inv`. -/
 namespace Pm
@@ -209,11 +209,11 @@ theorem mergeF_perm : ∀ (f : Nat) (st : Store) (l r acc res : List Nat) (st' :
           exact List.perm_middle
         exact h2.symm
 
-theorem msortF_perm : ∀ (f : Nat) (st : Store) (ids res : List Nat) (st' : Store),
-    msortF f st ids = .ok (res, st') → res.Perm ids ∧ SEq st st'
-  | 0, _, _, _, _, h => by simp [msortF] at h
+theorem msort_perm : ∀ (f : Nat) (st : Store) (ids res : List Nat) (st' : Store),
+    msort f st ids = .ok (res, st') → res.Perm ids ∧ SEq st st'
+  | 0, _, _, _, _, h => by simp [msort] at h
   | f + 1, st, ids, res, st', h => by
-    unfold msortF at h
+    unfold msort at h
     split at h
     · simp only [RF.ok.injEq, Prod.mk.injEq] at h
       obtain ⟨rfl, rfl⟩ := h
@@ -222,8 +222,8 @@ theorem msortF_perm : ∀ (f : Nat) (st : Store) (ids res : List Nat) (st' : Sto
       · rename_i l st1 h1
         split at h
         · rename_i r st2 h2
-          obtain ⟨p1, s1⟩ := msortF_perm f _ _ _ _ h1
-          obtain ⟨p2, s2⟩ := msortF_perm f _ _ _ _ h2
+          obtain ⟨p1, s1⟩ := msort_perm f _ _ _ _ h1
+          obtain ⟨p2, s2⟩ := msort_perm f _ _ _ _ h2
           obtain ⟨p3, s3⟩ := mergeF_perm _ _ _ _ _ _ _ h
           refine ⟨?_, (s1.trans s2).trans s3⟩
           have := (p1.append p2)
@@ -408,10 +408,10 @@ theorem collapseLoopF_spec : ∀ (f : Nat) (st : Store) (ids : List Nat) (i : Na
       obtain ⟨h4, h5⟩ := collapseLoopF_spec f _ _ _ _ _ h1 h3 h
       exact ⟨h4, h5.trans h2⟩
 
-theorem collapseF_spec {st : Store} {ids : List Nat} {st' : Store} {ids' : List Nat}
-    (hinv : Inv st ids) (h : collapseF st ids = .ok (ids', st')) :
+theorem collapse_spec {st : Store} {ids : List Nat} {st' : Store} {ids' : List Nat}
+    (hinv : Inv st ids) (h : collapse st ids = .ok (ids', st')) :
     Inv st' ids' ∧ (den st' ids').Perm (den st ids) := by
-  unfold collapseF at h
+  unfold collapse at h
   exact collapseLoopF_spec _ _ _ _ _ _ hinv (by omega) h
 
 /-! ## `hostlist_coalesce` -/
@@ -723,10 +723,10 @@ theorem coalesceLoopF_spec : ∀ (f : Nat) (st : Store) (ids : List Nat) (i : Na
       obtain ⟨h4, h5⟩ := coalesceLoopF_spec f _ _ _ _ _ h1 h3 h
       exact ⟨h4, h5.trans h2⟩
 
-theorem coalesceF_spec {st : Store} {ids : List Nat} {st' : Store} {ids' : List Nat}
-    (hinv : Inv st ids) (h : coalesceF st ids = .ok (ids', st')) :
+theorem coalesce_spec {st : Store} {ids : List Nat} {st' : Store} {ids' : List Nat}
+    (hinv : Inv st ids) (h : coalesce st ids = .ok (ids', st')) :
     Inv st' ids' ∧ (den st' ids').Perm (den st ids) := by
-  unfold coalesceF at h
+  unfold coalesce at h
   exact coalesceLoopF_spec _ _ _ _ _ _ hinv (by omega) h
 
 /-! ## `hostlist_sort` -/
@@ -762,27 +762,27 @@ theorem finish_spec {st : Store} {ids : List Nat} (hinv : Inv st ids) :
 
 /-- `hostlist_sort` (merge sort by `hostrange_cmp`, `hostlist_coalesce`, `hostlist_collapse`) never adds, drops or
     renames a node, and keeps the list well formed -/
-theorem sortHLF_spec (hl hl' : Hostlist) (hwf : HWFS hl) (h : sortHLF hl = .ok hl') :
+theorem sortHL_spec (hl hl' : Hostlist) (hwf : HWFS hl) (h : sortHL hl = .ok hl') :
     (expand hl').Perm (expand hl) ∧ HWFS hl' := by
-  unfold sortHLF at h
+  unfold sortHL at h
   split at h
   · cases h; exact ⟨Perm.refl _, hwf⟩
   · unfold afterMsortF at h
     split at h
     · rename_i ids1 st1 hm
-      obtain ⟨p1, s1⟩ := msortF_perm _ _ _ _ _ hm
+      obtain ⟨p1, s1⟩ := msort_perm _ _ _ _ _ hm
       have inv1 : Inv st1 ids1 := Inv_perm p1.symm (Inv_SEq s1 (Inv_init hl hwf))
       have d1 : (den st1 ids1).Perm (expand hl) := by
         rw [← den_init hl, ← den_SEq s1]; exact den_perm _ p1
       unfold afterCoalesceF at h
       split at h
       · rename_i ids2 st2 hco
-        obtain ⟨inv2, d2⟩ := coalesceF_spec inv1 hco
+        obtain ⟨inv2, d2⟩ := coalesce_spec inv1 hco
         unfold finishF at h
         split at h
         · rename_i ids3 st3 hcl
-          obtain ⟨inv3, d3⟩ := collapseF_spec inv2 hcl
-          simp only [SortResF.ok.injEq] at h
+          obtain ⟨inv3, d3⟩ := collapse_spec inv2 hcl
+          simp only [SortRes.ok.injEq] at h
           subst h
           obtain ⟨e, w⟩ := finish_spec inv3
           exact ⟨by rw [e]; exact (d3.trans d2).trans d1, w⟩
@@ -793,31 +793,123 @@ theorem sortHLF_spec (hl hl' : Hostlist) (hwf : HWFS hl) (h : sortHLF hl = .ok h
     · cases h
     · cases h
 
-theorem sortHLF_perm (hl hl' : Hostlist) (hwf : HWFS hl) (h : sortHLF hl = .ok hl') : (expand hl').Perm (expand hl) :=
-  (sortHLF_spec hl hl' hwf h).1
+theorem sortHL_perm (hl hl' : Hostlist) (hwf : HWFS hl) (h : sortHL hl = .ok hl') : (expand hl').Perm (expand hl) :=
+  (sortHL_spec hl hl' hwf h).1
 
-theorem sortHLF_wfs (hl hl' : Hostlist) (hwf : HWFS hl) (h : sortHLF hl = .ok hl') : HWFS hl' :=
-  (sortHLF_spec hl hl' hwf h).2
+theorem sortHL_wfs (hl hl' : Hostlist) (hwf : HWFS hl) (h : sortHL hl = .ok hl') : HWFS hl' :=
+  (sortHL_spec hl hl' hwf h).2
 
 
 /-! ## the hypotheses are satisfiable, and `HWFS` cannot be weakened to `HWF` -/
 
-/-- premises of `sortHLF_perm` on a non-trivial list (`b2,a[1-3],a[2-5],b1`): two prefixes, an overlap that is split,
+/-- premises of `sortHL_perm` on a non-trivial list (`b2,a[1-3],a[2-5],b1`): two prefixes, an overlap that is split,
     two singletons that are collapsed -/
 example :
     HWFS [⟨['b'], 2, 2, 1, false⟩, ⟨['a'], 1, 3, 1, false⟩, ⟨['a'], 2, 5, 1, false⟩, ⟨['b'], 1, 1, 1, false⟩] ∧
-    sortHLF [⟨['b'], 2, 2, 1, false⟩, ⟨['a'], 1, 3, 1, false⟩, ⟨['a'], 2, 5, 1, false⟩, ⟨['b'], 1, 1, 1, false⟩] =
+    sortHL [⟨['b'], 2, 2, 1, false⟩, ⟨['a'], 1, 3, 1, false⟩, ⟨['a'], 2, 5, 1, false⟩, ⟨['b'], 1, 1, 1, false⟩] =
       .ok [⟨['a'], 1, 2, 1, false⟩, ⟨['a'], 2, 3, 1, false⟩, ⟨['a'], 3, 5, 1, false⟩, ⟨['b'], 1, 2, 1, false⟩] := by
   unfold HWFS; decide +kernel
 
 /-- with single names whose unused `lo`/`hi` fields are not zero (allowed by `HWF`, never built by the library, excluded
     by `HWFS`) `hostlist_collapse` would merge two copies of the same name into one: the duplicate is lost -/
-theorem sortHLF_HWF_counterexample :
+theorem sortHL_HWF_counterexample :
     HWF [⟨['x'], 0, 0, 0, true⟩, ⟨['x'], 1, 1, 0, true⟩] ∧
-    sortHLF [⟨['x'], 0, 0, 0, true⟩, ⟨['x'], 1, 1, 0, true⟩] = .ok [⟨['x'], 0, 1, 0, true⟩] ∧
+    sortHL [⟨['x'], 0, 0, 0, true⟩, ⟨['x'], 1, 1, 0, true⟩] = .ok [⟨['x'], 0, 1, 0, true⟩] ∧
     expand [⟨['x'], 0, 0, 0, true⟩, ⟨['x'], 1, 1, 0, true⟩] = [['x'], ['x']] ∧
     expand [⟨['x'], 0, 1, 0, true⟩] = [['x']] := by
   unfold HWF; decide +kernel
 
-end Pm
+/-! ## fuel: the merge sort and `hostlist_collapse` never run out; only the bound of `hostlist_coalesce` is unproved -/
 
+theorem mergeF_ne_fuel : ∀ (f : Nat) (st : Store) (l r acc : List Nat), l.length + r.length < f →
+    mergeF f st l r acc ≠ .fuel
+  | 0, _, _, _, _, h => by omega
+  | f + 1, st, l, r, acc, h => by
+    unfold mergeF
+    split
+    · intro e; cases e
+    · intro e; cases e
+    · rename_i a l' b r'
+      simp only [List.length_cons] at h
+      split
+      · exact mergeF_ne_fuel f _ _ _ _ (by simp only [List.length_cons]; omega)
+      · exact mergeF_ne_fuel f _ _ _ _ (by simp only [List.length_cons]; omega)
+
+theorem msort_ne_fuel : ∀ (f : Nat) (st : Store) (ids : List Nat), ids.length ≤ f → 0 < f →
+    msort f st ids ≠ .fuel
+  | 0, _, _, _, h => by omega
+  | f + 1, st, ids, hlen, _ => by
+    unfold msort
+    split
+    · intro e; cases e
+    · rename_i h1
+      have h2 : 2 ≤ ids.length := by omega
+      have hd : 1 ≤ ids.length / 2 := by omega
+      have hd2 : ids.length / 2 < ids.length := by omega
+      have ht : (ids.take (ids.length / 2)).length ≤ f := by rw [List.length_take]; omega
+      have hdr : (ids.drop (ids.length / 2)).length ≤ f := by rw [List.length_drop]; omega
+      have hf : 0 < f := by omega
+      have ih1 := msort_ne_fuel f st (ids.take (ids.length / 2)) ht hf
+      split
+      · rename_i l st1 _
+        have ih2 := msort_ne_fuel f st1 (ids.drop (ids.length / 2)) hdr hf
+        split
+        · exact mergeF_ne_fuel _ _ _ _ _ (by omega)
+        · intro e; cases e
+        · rename_i hh; exact absurd hh ih2
+      · intro e; cases e
+      · rename_i hh; exact absurd hh ih1
+
+theorem collapseStep_cont_idx {st : Store} {ids : List Nat} {i : Nat} {st' : Store} {ids' : List Nat} {i' : Nat}
+    (h : collapseStep st ids i = .cont st' ids' i') : i' + 1 = i := by
+  unfold collapseStep at h
+  split at h
+  · cases h
+  · rename_i h0
+    have h0 : i ≠ 0 := by simpa using h0
+    split at h
+    · split at h <;> (cases h; omega)
+    · cases h; omega
+
+theorem collapseLoopF_ne_fuel : ∀ (f : Nat) (st : Store) (ids : List Nat) (i : Nat), i < f →
+    collapseLoopF f st ids i ≠ .fuel
+  | 0, _, _, _, h => by omega
+  | f + 1, st, ids, i, h => by
+    unfold collapseLoopF
+    split
+    · intro e; cases e
+    · intro e; cases e
+    · rename_i st' ids' i' hs
+      have := collapseStep_cont_idx hs
+      exact collapseLoopF_ne_fuel f st' ids' i' (by omega)
+
+theorem collapse_ne_fuel (st : Store) (ids : List Nat) : collapse st ids ≠ .fuel := by
+  unfold collapse
+  exact collapseLoopF_ne_fuel _ _ _ _ (by omega)
+
+/-- `hostlist_sort` reports `.fuel` only if the outer loop of `hostlist_coalesce` exceeds its computed bound
+    `coalesceFuel` — the merge sort and `hostlist_collapse` provably never do -/
+theorem sortHL_fuel_only_coalesce (hl : Hostlist) (h : sortHL hl = .fuel) :
+    ∃ ids st, msort (hl.length + 1) hl.toArray (List.range hl.length) = .ok (ids, st) ∧ coalesce st ids = .fuel := by
+  unfold sortHL at h
+  split at h
+  · cases h
+  · unfold afterMsortF at h
+    split at h
+    · rename_i ids1 st1 hm
+      refine ⟨ids1, st1, hm, ?_⟩
+      unfold afterCoalesceF at h
+      split at h
+      · rename_i ids2 st2 hco
+        unfold finishF at h
+        split at h
+        · cases h
+        · cases h
+        · rename_i hcl; exact absurd hcl (collapse_ne_fuel _ _)
+      · cases h
+      · rename_i hco; exact hco
+    · cases h
+    · rename_i hm
+      exact absurd hm (msort_ne_fuel _ _ _ (by simp) (by omega))
+
+end Pm
